@@ -266,9 +266,11 @@ pub fn gen_balance(rng: &mut Rng, bank: &B, now: i64) -> Bal {
         tag: bank.asset_tag,
         a,
         l,
-        emis: match rng.below(4) {
+        emis: match rng.below(6) {
             0 => 0,
             1 => rng.below(ONE as u64 * 3) as i128,
+            // (the whole-token boundary of `Balance::close`: one ulp below, exactly, one ulp above one token)
+            2 => *rng.pick(&[ONE - 1, ONE, ONE, ONE + 1]),
             _ => 0,
         },
         last_update: match rng.below(5) {
